@@ -413,8 +413,11 @@ func judgeOutcome(r *mon.Run, prop string, entry string, h hostile, rs WResult) 
 	case "timeout-unconfirmed":
 		r.Count("timeouts_in_batch_not_confirmed_alone", 1)
 		return
+	case "skipped-after-timeouts":
+		r.Count("cases_not_run_after_repeated_timeouts", 1)
+		return
 	case "timeout":
-		r.Violation(prop+"|"+entry+"|no-progress", fmt.Sprintf("%s did not finish on a %d-byte input within the watchdog", entry, len(h.in)), replay)
+		r.Violation(prop+"|"+entry+"|no-progress", fmt.Sprintf("%s did not finish on a %d-byte input within the watchdog %s", entry, len(h.in), rs.Panic), replay)
 		return
 	}
 	if rs.Err == "" || !strings.HasPrefix(rs.Err, "Parse: failed reading PE file") {
